@@ -34,7 +34,7 @@ type Mutex interface {
 type mutex struct {
 	// concurrency.Mutex is a session level mutex, so sync.Mutex is
 	// required to make it goroutine safe
-	lock    sync.Mutex
+	lock    *sync.Mutex
 	m       *concurrency.Mutex
 	timeout time.Duration
 }
@@ -71,7 +71,10 @@ func (c *cluster) Mutex(name string) (Mutex, error) {
 		return nil, err
 	}
 
+	lock, _ := c.localLocks.LoadOrStore(name, &sync.Mutex{})
+
 	return &mutex{
+		lock:    lock.(*sync.Mutex),
 		m:       concurrency.NewMutex(session, name),
 		timeout: c.requestTimeout,
 	}, nil
